@@ -318,6 +318,13 @@ func checkCase(c Case, o *vt.Obs) error {
 		if err := w.runOne(e, c.Corr, "block", c.HeadersAhead, o); err != nil {
 			return fmt.Errorf("[%s via block] %w", e.name, err)
 		}
+		if e.special != nil { // both depths of the refused block
+			cr := c.Corr
+			cr.X ^= 1 << 8
+			if err := w.runOne(e, cr, "block", c.HeadersAhead, o); err != nil {
+				return fmt.Errorf("[%s via block, other depth] %w", e.name, err)
+			}
+		}
 		if !e.blockOnly {
 			if err := w.runOne(e, c.Corr, "headers", 0, o); err != nil {
 				return fmt.Errorf("[%s via headers] %w", e.name, err)
@@ -336,6 +343,9 @@ func (w *world) runOne(e *entry, cr Corruption, via string, ha int, o *vt.Obs) e
 	if m.skip != "" {
 		o.Label("skip/" + e.name)
 		return nil
+	}
+	for _, l := range m.labels {
+		o.Label(l)
 	}
 	if via == "headers" {
 		ha = 0
